@@ -66,16 +66,24 @@ const maxIter = 10000
 
 // ReaderLoop: one Reader for the whole stream; NextFrame + Read with a caller buffer of
 // size buf until EOF. OnIntermediate / OnContinuation record what they are handed.
-func ReaderLoop(buf int) Driver { return readerLoop(buf, -1) }
+func ReaderLoop(buf int) Driver { return readerLoop(buf, -1, -1) }
+
+// ReaderContinuationHandler: like ReaderLoop(7), with an OnContinuation handler that reads up
+// to k bytes of each continuation fragment itself (they belong to the message like the bytes
+// Read returns afterwards).
+func ReaderContinuationHandler(k int) Driver { return readerLoop(7, -1, k) }
 
 // ReaderLazyHandler: like ReaderLoop(7), but the control handler looks at no more than k
 // bytes of a control frame's payload and returns nil (a handler that ignores Pongs, or only
 // wants a prefix). The reader has to skip what the handler left. Control events carry the
 // first k bytes only.
-func ReaderLazyHandler(k int) Driver { return readerLoop(7, k) }
+func ReaderLazyHandler(k int) Driver { return readerLoop(7, k, -1) }
 
-func readerLoop(buf, lazy int) Driver {
+func readerLoop(buf, lazy, contReads int) Driver {
 	name, expect := fmt.Sprintf("Reader/buf%d", buf), identity
+	if contReads >= 0 {
+		name = fmt.Sprintf("Reader/continuation-handler-reads-%d", contReads)
+	}
 	if lazy >= 0 {
 		name = fmt.Sprintf("Reader/handler-reads-%d", lazy)
 		expect = func(ev []Event) []Event {
@@ -116,8 +124,17 @@ func readerLoop(buf, lazy int) Driver {
 				res.Events = append(res.Events, Event{Kind: "ctl", Op: byte(h.OpCode), Payload: p})
 				return nil
 			}
+			var p []byte
 			rd.OnContinuation = func(h ws.Header, r io.Reader) error {
 				res.ContHdrs++
+				if contReads >= 0 {
+					q := make([]byte, contReads)
+					n, err := io.ReadFull(r, q)
+					p = append(p, q[:n]...)
+					if err != nil && err != io.EOF && err != io.ErrUnexpectedEOF {
+						return err
+					}
+				}
 				return nil
 			}
 			b := make([]byte, buf)
@@ -132,7 +149,7 @@ func readerLoop(buf, lazy int) Driver {
 					res.Err = err
 					return
 				}
-				var p []byte
+				p = nil
 				for jt := 0; ; jt++ {
 					if jt > maxIter {
 						res.Err = errors.New("driver: Read does not terminate")
@@ -487,7 +504,7 @@ func ParseFrames(b []byte) (out []refmodel.Frame, rest []byte) {
 func All() []Driver {
 	return []Driver{
 		ReaderLoop(1), ReaderLoop(2), ReaderLoop(7), ReaderLoop(512),
-		ReaderLazyHandler(0), ReaderLazyHandler(1),
+		ReaderLazyHandler(0), ReaderLazyHandler(1), ReaderContinuationHandler(1), ReaderContinuationHandler(64),
 		ReaderDiscard(0), ReaderDiscard(1), ReaderDiscardUTF8(1), ReaderDiscardUTF8(2),
 		NextReaderLoop(), ReadMessageLoop(),
 		ReadDataLoop("Generic"), ReadDataLoop("Data"), ReadDataLoop("Text"), ReadDataLoop("Binary"),
